@@ -349,6 +349,27 @@ def _real_op(op: list[str]) -> str:
 		return exc_enum(e)
 
 
+# the production function each caller op drives and the helper it is expected to go through (stable key: function name, not line)
+CALLER_SITES = {
+	'pluck': ('pluck_func_call_arguments', 'break_last_block'),
+	'indexer': ('break_indexer', 'break_last_block'),
+	'cvarnew': ('pluck_cvar_new', 'break_last_block'),
+	'initcall': ('is_initializer_call', 'break_last_block'),
+	'throw': ('on_throw', 'break_separator'),
+	'dictcomp': ('on_dict_comp', 'break_separator'),
+}
+
+
+@lru_cache(None)
+def retired_callers() -> frozenset[str]:
+	"""caller ops whose production function no longer calls the BlockParser helper (read from the sources by the call-site translator on
+	every run): the model of such a caller describes code that is gone - the op leaves the correspondence stream; the search keeps its
+	law as long as the function can still be driven by text"""
+	from translate import gen_block_callsites
+	present = gen_block_callsites.python_site_functions()
+	return frozenset(op for op, site in CALLER_SITES.items() if site not in present)
+
+
 CALLER_OPS = {'pluck', 'indexer', 'cvarnew', 'callsplit', 'initcall', 'throw', 'dictcomp', 'dany', 'danyargs', 'qany', 'qanyargs', 'qcontains'}
 
 
@@ -652,9 +673,12 @@ def stream_callers(ctx: Ctx, n: int) -> Stream:
 				['dany', text, [text.split('(')[0]]], ['danyargs', text, rng.choice(['', ',', '('])], ['qcontains', [text, 'a(b)'], ['a']]]
 		else:
 			ops = caller_ops(rng, mode, i)
+		ops = [op for op in ops if op[0] not in retired_callers()]
 		lines = [op_line(op) for op in ops]
 		real = [real_op(op) for op in ops]
 		cases.append(({'kind': mode, 'ops': len(ops)}, lines, real))
+	if retired_callers():
+		notes.append('retired (the production function no longer calls the helper, per the generated call-site scan): ' + ', '.join(f'{op} = {CALLER_SITES[op][0]}' for op in sorted(retired_callers())))
 	st = common.correspond('block-callers', cases, 'block', classify=lambda d: d['kind'])
 	st.note = ('the production call sites: PatternParser.pluck_func_call_arguments / break_indexer / pluck_cvar_new directly; Py2Cpp.on_throw, on_dict_comp, '
 		'is_initializer_call as the real (unbound) methods with a recording `render`; DecoratorHelper.any / any_args and DecoratorQuery.any / any_args / contains; '
@@ -933,7 +957,15 @@ def search_callers(ctx: Ctx) -> SearchResult:
 	hist: dict[str, int] = {}
 	seen: set[str] = set()
 
-	def bad(key: str, what: str, replay: dict[str, Any]) -> None:
+	KEY_OP = {'caller:initializer_call': 'initcall', 'caller:throw': 'throw', 'caller:pluck': 'cvarnew', 'caller:dict_comp': 'dictcomp', 'caller:indexer': 'indexer'}
+	undrivable: dict[str, int] = {}
+
+	def bad(key: str, what: str, replay: dict[str, Any], got: Any = None) -> None:
+		# a function that no longer goes through the BlockParser helper (generated call-site scan) AND can not be driven with a text
+		# and a stand-in node any more (it reads the syntax tree: AttributeError/TypeError on the stand-in) is outside this property
+		if KEY_OP.get(key) in retired_callers() and got in ('AttributeError', 'TypeError'):
+			undrivable[key] = undrivable.get(key, 0) + 1
+			return
 		res.findings.append(Finding(key=key, what=what, replay=replay))
 
 	notes: list[str] = []
@@ -953,26 +985,26 @@ def search_callers(ctx: Ctx) -> SearchResult:
 		except Exception as e:  # noqa: BLE001
 			got = exc_enum(e)
 		if got is not True:
-			bad('caller:initializer_call', f'is_initializer_call({call!r}, {callee!r}) = {got!r}, expected True', {'value': call, 'var_type': callee})
+			bad('caller:initializer_call', f'is_initializer_call({call!r}, {callee!r}) = {got!r}, expected True', {'value': call, 'var_type': callee}, got)
 		try:
 			got = guarded(call_is_initializer, call + '.dup()', callee)
 		except Exception as e:  # noqa: BLE001
 			got = exc_enum(e)
 		if got is not False:
-			bad('caller:initializer_call', f'is_initializer_call({call + ".dup()"!r}, {callee!r}) = {got!r}, expected False', {'value': call + '.dup()', 'var_type': callee})
+			bad('caller:initializer_call', f'is_initializer_call({call + ".dup()"!r}, {callee!r}) = {got!r}, expected False', {'value': call + '.dup()', 'var_type': callee}, got)
 		try:
 			got = guarded(call_on_throw, call)
 		except Exception as e:  # noqa: BLE001
 			got = exc_enum(e)
 		if got != (callee, args):
-			bad('caller:throw', f'on_throw({call!r}) renders calls/arguments {got!r}, expected {(callee, args)!r}', {'throws': call})
+			bad('caller:throw', f'on_throw({call!r}) renders calls/arguments {got!r}, expected {(callee, args)!r}', {'throws': call}, got)
 		from rogw.tranp.implements.cpp.transpiler.py2cpp import PatternParser
 		try:
 			got = guarded(PatternParser.pluck_cvar_new, call)
 		except Exception as e:  # noqa: BLE001
 			got = exc_enum(e)
 		if got != (callee, sep.join(args)):
-			bad('caller:pluck', f'pluck_cvar_new({call!r}) = {got!r}', {'text': call})
+			bad('caller:pluck', f'pluck_cvar_new({call!r}) = {got!r}', {'text': call}, got)
 		if n == 2:
 			res.cases += 1
 			proj = '{' + sep.join(args) + '}'
@@ -981,7 +1013,7 @@ def search_callers(ctx: Ctx) -> SearchResult:
 			except Exception as e:  # noqa: BLE001
 				got = exc_enum(e)
 			if got != (args[0], args[1]):
-				bad('caller:dict_comp', f'on_dict_comp({proj!r}) renders key/value {got!r}, expected {(args[0], args[1])!r}', {'projection': proj})
+				bad('caller:dict_comp', f'on_dict_comp({proj!r}) renders key/value {got!r}, expected {(args[0], args[1])!r}', {'projection': proj}, got)
 		# recv[key]: strings may hold every bracket except square ones
 		key = sep.join(args_fragments(rng, mode, i, 1 + i % 2, exclude='[]'))
 		recv = render(gen_fragment(rng, mode, i % 4, exclude='[]')).strip(' ')
@@ -991,9 +1023,11 @@ def search_callers(ctx: Ctx) -> SearchResult:
 		except Exception as e:  # noqa: BLE001
 			got = exc_enum(e)
 		if got != (recv, key):
-			bad('caller:indexer', f'break_indexer({recv + "[" + key + "]"!r}) = {got!r}, expected {(recv, key)!r}', {'text': f'{recv}[{key}]'})
+			bad('caller:indexer', f'break_indexer({recv + "[" + key + "]"!r}) = {got!r}, expected {(recv, key)!r}', {'text': f'{recv}[{key}]'}, got)
 		if i < 2:
 			res.samples.append({'call': call, 'args': args})
+	if undrivable:
+		notes.append('not evaluated (the production function no longer calls the BlockParser helper and reads the syntax tree instead of the text): ' + ', '.join(f'{k} × {v}' for k, v in sorted(undrivable.items())))
 	res.note = '; '.join(notes)
 	res.distinct = len(seen)
 	res.histogram = hist
@@ -1615,7 +1649,7 @@ STATEMENTS: dict[str, str] = {
 	'last_block_reassemble': 'on EVERY text: break_last_block(text) = (p, i) implies text = p + open + i + close + rest - the parts are cut at the scanned position (m[i][i] gives (m[i], i))',
 	'last_block_spec': 'for every fragment whose strings hold no bracket of the kind: (everything in front of, inside of) the LAST group of the kind not nested in another group of the kind, wherever it stands; none: IndexError',
 	'last_block_any_string_counterexample': 'with a bracket of the kind inside a string the law is false (f(")")): break_last_block does not look at quotes - the reason for "brackets of other kinds" in the quantifier',
-	'callsites_literals / callsites_last_block / callsites_separator': 'GENERATED table of all 15 production call sites (py via ast, j2 templates): every brackets literal is one of the four pairs, every delimiter one plain character (decide over the table); hence last_block/reassembly hold at every break_last_block/parse_bracket site and the exact split at every break_separator site',
+	'callsites_literals / callsites_last_block / callsites_separator': 'GENERATED table of all production call sites (py via ast, j2 templates; the number is in generated_tables): every brackets literal is one of the four pairs, every delimiter one plain character (decide over the table); hence last_block/reassembly hold at every break_last_block/parse_bracket site and the exact split at every break_separator site',
 	'caller_indexer_cvar_new': 'PatternParser.break_indexer(recv[key]) = (recv, key), pluck_cvar_new(Class(args)) = (Class, args)',
 	'bracket_spec_prefix': 'bracket_spec with ANY fragment in front of the group that has no top-level group of the kind (blanks, delimiters, strings, other-kind groups like g[(1)]): the delimiter-free second _analyze_entry finds the block\'s own bracket',
 	'decorator': 'DecoratorHelper._parse(path + "(" + render args + ")") = (path, dict built from exactly the top-level comma pieces of args, render args) for every path without "(" and every args fragment',
@@ -1719,7 +1753,7 @@ def run(ctx: Ctx) -> int:
 	cap_findings(searches)
 	return common.finish(ctx, proof, streams, searches,
 		translate_ok=translate_ok, translate_msg=translate_msg,
-		statements=STATEMENTS,
+		statements={**STATEMENTS, **({'(retired call sites)': 'no longer production call sites of a BlockParser helper per the generated scan - the caller_* theorems about them remain statements about the helper composition only: ' + ', '.join(f'{op} = {CALLER_SITES[op][0]}' for op in sorted(retired_callers()))} if retired_callers() else {})},
 		partial={
 			'proved (all fragments, unbounded nesting, induction on Frag)': 'splitting = exact top-level split (hence cuts only at top-level delimiters, rejoin up to blanks, balanced pieces) for fragments with arbitrary simple strings; last bracket group of prefix+group (strings may contain the other bracket kinds and quotes); error branch; skip; decorator path/join_args/pieces and the key/value of positional and labelled pieces; parameter type/name/default for every default fragment; parse_bracket = the groups two levels deep in pre-order; the production callers (throw / dict-comprehension / pluck / indexer / is_initializer_call; the former range splitting only as a statement about the helpers); DecoratorQuery.any / contains / any_args; termination of _parse/_parse_block/_analyze_entry on every text; is_quoted_literal on quote + body + quote (exact characterisation); Param.var_type_origin on [const] base [<…>] [*|&] over the generated regular expression',
 			'formerly false, proved after the repairs 3111a97 d6d867d eb33d21 f350973': 'param_unrestricted, decorator_positional, sep_spec_dirty, bracket_first/bracket_spec; the old witnesses are replayed from corpus/C18 and by the searches and must pass',
